@@ -139,11 +139,24 @@ def cert_K8_pde(repo, fname):
     prog = Program(repo)
     c = Cert('K8-' + fname)
     fi, w, real = lift_M0u0(prog, fname)
-    pde = sp.diff(w, t) - sp.diff(w, x, 2) - sp.diff(w, y, 2)
-    c.ident('K8', '%s.M0u0 heat equation' % fname, fi.where(), pde,
-            'the closed-form initial potential satisfies w_t = w_xx + w_yy '
-            'identically (checked on the complex form before .real)',
-            scale=w)
+    # |u| is decided on either side of u = 0 (the two branches are smooth;
+    # whether they are the right ones is the initial trace's business)
+    absn = sorted(w.atoms(sp.Abs), key=str)
+    if len(absn) > 3:
+        raise AnalysisError('%s: %d absolute values in the closed form' %
+                            (fi.where(), len(absn)))
+    import itertools
+    for signs in itertools.product((1, -1), repeat=len(absn)):
+        ws = w.subs({a: sg * a.args[0] for a, sg in zip(absn, signs)})
+        pde = sp.diff(ws, t) - sp.diff(ws, x, 2) - sp.diff(ws, y, 2)
+        tag = '' if not absn else ' [%s]' % ', '.join(
+            '%s %s 0' % (a.args[0], '>' if sg > 0 else '<')
+            for a, sg in zip(absn, signs))
+        c.ident('K8', '%s.M0u0 heat equation%s' % (fname, tag), fi.where(),
+                pde,
+                'the closed-form initial potential satisfies w_t = w_xx + '
+                'w_yy identically (checked on the complex form before '
+                '.real)', scale=ws)
     return c
 
 
